@@ -122,3 +122,10 @@ Definition contains_key (d : caps) (key : bytes) : res bool :=
   | KeyError => Ok false
   | Crash e => Crash e
   end.
+
+(* Capabilities.remove(uri): `if uri in self._dict: del self._dict[uri]`; histories of add/remove *)
+Definition caps_remove (d : caps) (uri : bytes) : caps := filter (fun kv => negb (beq uri (fst kv))) d.
+Inductive cop := OAdd (u : bytes) | ORemove (u : bytes).
+Definition apply_op (d : caps) (o : cop) : caps :=
+  match o with OAdd u => caps_add d u | ORemove u => caps_remove d u end.
+Definition caps_after (uris : list bytes) (ops : list cop) : caps := fold_left apply_op ops (caps_of uris).
